@@ -114,3 +114,10 @@ impl SnmpPriv for DesKey {
         Ok(scoped_pdu)
     }
 }
+
+#[cfg(feature = "verif")]
+impl DesKey {
+    pub fn verif_set_salt(&mut self, v: u32) {
+        self.salt_value = v;
+    }
+}
